@@ -930,6 +930,20 @@ impl WorldA {
                     self.check_send_side(i, if d == 0 { CL } else { SV }, obs);
                 }
             }
+            K_SUBMITGIANT => {
+                // one message of more than 65 536 slices (78.6 MB and up; legal only under channel budgets configured far above the
+                // default, so only directed corpus traces use it): slice indexes that no longer fit sixteen bits
+                let i = op.a as usize % ncl;
+                let d = (op.b % 2) as usize;
+                let n = self.nchan(i, d);
+                if n > 0 {
+                    let ch = op.c as usize % n;
+                    let len = 65_536 * 1200 + 1 + (op.d % 2_000_000) as usize;
+                    obs.count("op.submit_giant");
+                    self.submit(i, d, ch, len, None, obs);
+                    self.check_send_side(i, if d == 0 { CL } else { SV }, obs);
+                }
+            }
             K_RECV => {
                 let i = op.a as usize % ncl;
                 let d = (op.b % 2) as usize;
